@@ -25,7 +25,9 @@ CLAIM = dict(
          "own value and to_grid the same grid means for every arrival permutation, also composed with the loop; "
          "self_to_path is a pure function of (path k-points, collected k-points) that leaves the Path object unchanged, so "
          "any number of run() calls on one Path object each return every point's own value, whereas a mapping remembered "
-         "on the Path object provably returns other points' values in the second call.",
+         "on the Path object provably returns other points' values in the second call; with a fresh ray.put in every "
+         "call the workers evaluate the object as it is at that call, whereas re-using the first call's reference "
+         "provably evaluates the first state for ever.",
     note="Trusted: Lean kernel + Mathlib; the harness and the stub `ray` (ray's contract: wait answers with distinct "
          "references out of the list it was given); commutativity/associativity of result addition is exact only "
          "for the integer-valued toy calculator (bitwise comparison) and holds within rounding for float data. "
@@ -45,10 +47,15 @@ TRUSTED = [
     "not modelled (oracle only): run()'s glue around process() (refinement, ray.put/remote wrapping, symmetrisation), "
     "Result.__add__ of the real result classes (float addition is commutative but not associative: compared within "
     "rounding, bit-for-bit for the integer-valued calculator), find_grid, parallel.py (ray_init / runtime_env)",
+    "the stub `ray` is faithful to the process boundary: ray.put and task arguments are SERIALISED (cloudpickle round "
+    "trip, snapshot at call time), top-level ObjectRef arguments are resolved for the task, get_runtime_context() gives "
+    "a per-session gcs_address / job id; results come back by reference",
     "the stub `ray` evaluates tasks in-process; pickling of K-points and results by real ray is covered only by the "
     "thorough tier's real-ray run",
 ]
-RULE = ("schedules: all answer sequences of depth <= 3 for n <= 4 remotes (enumerated), and random adversarial ones "
+RULE = ("session histories: the same system / grid / path objects passed to run(parallel=True) 3-5 times in one stub-ray "
+        "session with in-place public-API changes in between (set_R_mat reset/add/diag, set_pointgroup), each compared "
+        "with the serial run of the current object; schedules: all answer sequences of depth <= 3 for n <= 4 remotes (enumerated), and random adversarial ones "
         "(monotone ready set, each answer a random subset of it of size <= num_returns, timeouts) for n up to 40 and 1-7 "
         "workers; a case is non-trivial when the answer sequence is NOT nested (the class on which the original rule "
         "double-counts: decided by running the model with the old rule); distinct = distinct (n, nstep, schedule) or "
@@ -557,6 +564,89 @@ def oracle_tabulate(ctx, scale):
     rg.cleanup()
 
 
+def oracle_session_history(ctx, scale):
+    """one ray session, the SAME system / grid / path objects passed to run(parallel=True) several times, with in-place
+    changes through the public API in between (set_R_mat reset / add, set_pointgroup, a new calculator set): every
+    parallel run must equal the serial run of the object AS IT IS NOW.  The stub's object store snapshots on
+    `ray.put` like the real one, so anything that re-uses an earlier snapshot evaluates a stale system."""
+    import copy
+    import random
+    rng = ctx.rng
+    T = wb.calculators.tabulate
+    for it in range(ctx.n(3, 12) * scale):
+        name = rng.choice(["haldane", "haldane_c3", "cubic", "cubic_c4i"])
+        two_d = name.startswith("haldane")
+        with quiet():
+            system = copy.deepcopy(rg.toy_system(name))        # the shared toy systems are never modified
+            div = rng.choice([2, 3, 4])
+            grid = wb.Grid(system, NKdiv=[div, div, 1] if two_d else rng.choice([2, 3]), NKFFT=[2, 2, 1] if two_d else 2)
+            D = 16
+            pts = [[rng.randint(-D, 2 * D) / D, rng.randint(-D, 2 * D) / D, 0.0 if two_d else rng.randint(0, D) / D]
+                   for _ in range(rng.randint(5, 11))]
+            path = wb.Path(system, k_list=pts)
+        r2 = random.Random(rng.getrandbits(32))
+        stub = rg.StubRay(rng.choice([1, 2, 3, 5]), rg.adversarial_chooser(r2, max_calls=rng.choice([3, 6, 12])), shuffle=r2.shuffle)
+        nsteps = rng.randint(3, 5)
+        history = []
+        for step in range(nsteps):
+            if step > 0:
+                op = rng.choice(["scale_ham", "add_ham", "onsite", "pointgroup"] if name != "haldane" and name != "cubic"
+                                else ["scale_ham", "add_ham", "onsite"])
+                with quiet():
+                    H = system.get_R_mat("Ham")
+                    if op == "scale_ham":
+                        system.set_R_mat("Ham", H * rng.choice([0.5, 1.25, 2.0]), reset=True)
+                    elif op == "add_ham":
+                        system.set_R_mat("Ham", H * rng.choice([0.25, -0.125]), add=True)
+                    elif op == "onsite":
+                        shift = np.array([rng.choice([-0.5, 0.25, 0.75]) * (j + 1) for j in range(system.num_wann)])
+                        system.set_R_mat("Ham", shift, diag=True, add=True)
+                    elif op == "pointgroup":
+                        system.set_pointgroup(rng.choice([["C3z"], []]) if two_d else rng.choice([["C4z", "Inversion"], ["C4z"], ["Inversion"]]))
+                history.append(op)
+            on_path = rng.random() < 0.4
+            case = dict(kind="session history", system=name, step=step, changes_so_far=list(history),
+                        target="path" if on_path else "grid", workers=stub.ncpu)
+            with ctx.attempt("repeated run(parallel=True) on one system object", case):
+                d = rg.scratch("c12hist")
+                if on_path:
+                    calcs = {"tab": T.TabulatorAll({"Energy": T.Energy(), "berry": T.BerryCurvature()}, mode="path", save_mode="")}
+                    kw = dict(k_batch=rng.choice([2, 3]))
+                    target = path
+                else:
+                    calcs = {"dos": wb.calculators.static.DOS(Efermi=np.linspace(-2, 2, 7), save_mode=""),
+                             "ahc": wb.calculators.static.AHC(Efermi=np.linspace(-2, 2, 7), save_mode="")}
+                    kw = dict(adpt_num_iter=rng.choice([0, 1]), use_irred_kpt=rng.random() < 0.6)
+                    target = grid
+                common = dict(fout_name=d + "/o", file_Klist_path=d + "/kl", **kw)
+                with quiet(), rg.no_ray():
+                    r0 = wb.run(system, target, calcs, parallel=False, **common)
+                with quiet(), rg.stub_ray(stub):
+                    r1 = wb.run(system, target, calcs, parallel=True, **common)
+                ctx.case(signature=("hist", name, step, str(history), on_path), nontrivial=step > 0)
+                ctx.count(f"oracle.session_history.run#{step + 1}_on_the_same_object")
+                if history:
+                    ctx.count(f"oracle.session_history.after_{history[-1]}")
+                if on_path:
+                    t0, t1 = r0.results["tab"], r1.results["tab"]
+                    for q in ("Energy", "berry"):
+                        a, b = t0.results[q].data, t1.results[q].data
+                        if a.shape != b.shape or np.abs(a - b).max() > 1e-9 * max(1, np.abs(a).max()):
+                            ctx.fail(f"run #{step + 1} on the same system object (after {history or 'no change'}): tabulated "
+                                     f"'{q}' of the parallel run differs from the serial run of the CURRENT system by "
+                                     f"{np.abs(a - b).max() if a.shape == b.shape else 'shape'}", case)
+                            break
+                else:
+                    for k in ("dos", "ahc"):
+                        a, b = np.array(r0.results[k].data), np.array(r1.results[k].data)
+                        if a.shape != b.shape or np.abs(a - b).max() > 1e-10 * max(1.0, np.abs(a).max()):
+                            ctx.fail(f"run #{step + 1} on the same system object (after {history or 'no change'}): integrated "
+                                     f"'{k}' of the parallel run differs from the serial run of the CURRENT system by "
+                                     f"{np.abs(a - b).max() if a.shape == b.shape else 'shape'}", case)
+                            break
+    rg.cleanup()
+
+
 def oracle_real_ray(ctx):
     """thorough tier: the real ray (3 workers), tasks skewed by sleeps so that they complete out of order.  Runs when
     the machine is quiet enough for ray to start in time; otherwise (or when ray cannot start) it is a NOTE, never a
@@ -618,6 +708,7 @@ def oracle_real_ray(ctx):
 def oracle(ctx, scale):
     oracle_integrate(ctx, scale)
     oracle_tabulate(ctx, scale)
+    oracle_session_history(ctx, scale)
     if ctx.tier == "thorough" and not ctx.searching:
         oracle_real_ray(ctx)
     rg.cleanup()
